@@ -109,10 +109,20 @@ def gen():
             raise Unsupported("{}: expected one str.replace in {}, found {}".format(
                 PATH, TOKENISER, len(replaces)))
         out["dotFrom"], out["dotTo"] = replaces[0]
-        if len(fullmatches) != 1:
-            raise Unsupported("{}: expected one re.fullmatch validity check, found {}".format(
-                PATH, len(fullmatches)))
-        out["validity"] = fullmatches[0]
+        # validity check: either re.fullmatch(<pattern>, s) or "the tokens found cover the
+        # string" (`"".join(tokens) != unit_string`), reported as the pseudo pattern <cover>
+        covers = [n for n in ast.walk(fn) if isinstance(n, ast.Compare) and len(n.ops) == 1
+                  and isinstance(n.ops[0], ast.NotEq) and isinstance(n.left, ast.Call)
+                  and isinstance(n.left.func, ast.Attribute) and n.left.func.attr == "join"
+                  and isinstance(n.left.func.value, ast.Constant) and n.left.func.value.value == ""]
+        if len(fullmatches) == 1 and not covers:
+            out["validity"] = fullmatches[0]
+        elif len(covers) == 1 and not fullmatches:
+            out["validity"] = "<cover>"
+        else:
+            raise Unsupported("{}: validity check of {} not recognised ({} re.fullmatch, {} "
+                              "join-coverage tests)".format(PATH, TOKENISER, len(fullmatches),
+                                                            len(covers)))
         if len(prefixes) > 1:
             raise Unsupported("{}: more than one startswith() in {}".format(PATH, TOKENISER))
         out["bare"] = prefixes[0] if prefixes else ""
